@@ -35,9 +35,9 @@ package agreement
 //     whose count reached the threshold, round/period/step/proto are those of the votes;
 //   * duplicates and votes of known equivocators leave the whole tracker state unchanged;
 //   * tracker.count(v) equals the reference count after every event;
-//   * the Bundle has distinct voters; plain entries are exactly the accepted votes of
-//     first-voters of that value; equivocation entries are the two accepted votes of a
-//     reference equivocator; the total (reference) weight reaches the threshold; and the
+//   * the Bundle has distinct voters; plain entries are accepted votes their senders cast
+//     for that value; equivocation entries are the two accepted votes of a reference
+//     equivocator; the total (reference) weight reaches the threshold; and the
 //     bundle passes the real unauthenticatedBundle.verify against the ledger.
 // Not covered: more than 4 senders / 3 values, weights other than the two variants,
 //   steps beyond next (all "next" steps share the code path), the voteFilterRequest and
@@ -96,12 +96,14 @@ type c06Env struct {
 	v       c06Variant
 	version protocol.ConsensusVersion
 	ledger  Ledger
+	rnd     basics.Round // the round all votes are for (ledger.NextRound at setup)
 	addrs   [c06NSenders]basics.Address
 	// votes[step][sender][value] are real verified votes
 	votes map[step]*[c06NSenders][c06NValues]vote
 	vals  map[step]*[c06NValues]proposalValue
 	avv   *AsyncVoteVerifier
 	log   serviceLogger
+	bops  map[step][]c06BundleOp // family 2: the bundleVerified alphabet
 
 	memoMu sync.Mutex
 	memo   map[string]string // encoded bundle -> "" (verifies) or error text
@@ -159,6 +161,7 @@ func c06MakeEnv(v c06Variant, steps []step) (*c06Env, error) {
 	env.votes = map[step]*[c06NSenders][c06NValues]vote{}
 	env.vals = map[step]*[c06NValues]proposalValue{}
 	rnd := env.ledger.NextRound()
+	env.rnd = rnd
 	for _, s := range steps {
 		x := proposalValue{OriginalPeriod: 0, OriginalProposer: env.addrs[0], BlockDigest: c06Digest("x"), EncodingDigest: c06Digest("x-enc")}
 		y := proposalValue{OriginalPeriod: 0, OriginalProposer: env.addrs[1], BlockDigest: c06Digest("y"), EncodingDigest: c06Digest("y-enc")}
@@ -260,10 +263,40 @@ func (r *c06Ref) eqWeight(w *[c06NSenders]uint64) uint64 {
 type c06Sys struct {
 	env  *c06Env
 	step step
-	sr   *stepRouter
+	sr   *stepRouter // family 1: the tracker directly behind its stepRouter
+	root *rootRouter // family 2 (verif_c06_aggregator_test.go): the whole vote-machine chain
 	tr   *tracer
 	ref  c06Ref
 	last string // label of the last observation (evidence only)
+}
+
+// stepRouterOf returns the stepRouter holding the explored tracker (nil while the router
+// chain of family 2 has not created it yet).
+func (y *c06Sys) stepRouterOf() *stepRouter {
+	if y.root == nil {
+		return y.sr
+	}
+	rr := y.root.Children[y.env.rnd]
+	if rr == nil || rr.Children[0] == nil {
+		return nil
+	}
+	return rr.Children[0].Children[y.step]
+}
+
+// c06RefStep is the reference transition for one accepted vote; it reports whether the
+// tally changed (false: duplicate or vote of a known equivocator).
+func c06RefStep(nr *c06Ref, i, k int) bool {
+	switch {
+	case nr.second[i] >= 0: // known equivocator: ignored
+		return false
+	case nr.first[i] < 0:
+		nr.first[i] = int8(k)
+	case nr.first[i] == int8(k): // duplicate
+		return false
+	default:
+		nr.second[i] = int8(k)
+	}
+	return true
 }
 
 func c06New(env *c06Env, s step) *c06Sys {
@@ -277,7 +310,11 @@ func c06New(env *c06Env, s step) *c06Sys {
 // trackerKey is a canonical rendering of the complete real tracker + contract state.
 func (y *c06Sys) trackerKey() string {
 	var b strings.Builder
-	t := &y.sr.VoteTracker
+	sr := y.stepRouterOf()
+	if sr == nil {
+		return "-"
+	}
+	t := &sr.VoteTracker
 	name := func(a basics.Address) string {
 		if i := y.env.senderIdx(a); i >= 0 {
 			return string(rune('a' + i))
@@ -313,7 +350,7 @@ func (y *c06Sys) trackerKey() string {
 	}
 	sort.Strings(parts)
 	fmt.Fprintf(&b, "C[%s]", strings.Join(parts, ","))
-	c := &y.sr.VoteTrackerContract
+	c := &sr.VoteTrackerContract
 	fmt.Fprintf(&b, "K%v/%v/%d", c.Emitted, c.StepOk, c.Step)
 	return b.String()
 }
@@ -333,18 +370,22 @@ func (y *c06Sys) anyOver(r *c06Ref) (n int, which int) {
 	return
 }
 
+// c06PanicText renders a recovered panic reproducibly (a logrus entry carries a timestamp).
+func c06PanicText(x any) string {
+	if ent, ok := x.(*logrus.Entry); ok {
+		return ent.Message
+	}
+	return fmt.Sprint(x)
+}
+
 // handle runs the real tracker; a panic is turned into an error text.
 func (y *c06Sys) handle(e event) (out event, panicked string) {
 	defer func() {
 		if x := recover(); x != nil {
-			if ent, ok := x.(*logrus.Entry); ok {
-				panicked = ent.Message // without the entry's timestamp: messages must be reproducible
-			} else {
-				panicked = fmt.Sprint(x)
-			}
+			panicked = c06PanicText(x)
 		}
 	}()
-	rnd := y.env.ledger.NextRound()
+	rnd := y.env.rnd
 	out = y.sr.dispatch(y.tr, player{Round: rnd, Period: 0, Step: y.step}, e, voteMachinePeriod, voteMachineStep, rnd, 0, y.step)
 	return
 }
@@ -356,17 +397,7 @@ func (y *c06Sys) apply(op int) (bool, error) {
 
 	// reference transition
 	nr := y.ref
-	changed := true
-	switch {
-	case nr.second[i] >= 0: // known equivocator: ignored
-		changed = false
-	case nr.first[i] < 0:
-		nr.first[i] = int8(k)
-	case nr.first[i] == int8(k): // duplicate
-		changed = false
-	default:
-		nr.second[i] = int8(k)
-	}
+	changed := c06RefStep(&nr, i, k)
 	// the protocol's assumption, decided by the reference alone
 	if nr.eqWeight(w) >= env.v.thr {
 		return false, nil
@@ -407,23 +438,7 @@ func (y *c06Sys) apply(op int) (bool, error) {
 		if empty {
 			return true, ve.Violationf("C06:missing-threshold", "no threshold event although count(%c)=%d reaches %d for the first time", 'x'+which, nr.count(w, which), env.v.thr)
 		}
-		want := nextThreshold
-		switch y.step {
-		case soft:
-			want = softThreshold
-		case cert:
-			want = certThreshold
-		}
-		if out.T != want {
-			return true, ve.Violationf("C06:threshold-type", "threshold event type %v for step %d, expected %v", out.T, y.step, want)
-		}
-		if out.Proposal != env.vals[y.step][which] {
-			return true, ve.Violationf("C06:threshold-value", "threshold signalled for %s, but the value reaching the threshold is %c", y.valName(out.Proposal), 'x'+which)
-		}
-		if out.Round != in.R.Round || out.Period != in.R.Period || out.Step != in.R.Step || out.Proto != env.version {
-			return true, ve.Violationf("C06:threshold-coords", "threshold event carries (%d,%d,%d,%s), votes are for (%d,%d,%d,%s)", out.Round, out.Period, out.Step, out.Proto, in.R.Round, in.R.Period, in.R.Step, env.version)
-		}
-		if err := y.checkBundle(out.Bundle, which); err != nil {
+		if err := y.checkThreshold(out, which, in.R); err != nil {
 			return true, err
 		}
 		y.last = fmt.Sprintf("emit-%c-v%d-e%d", 'x'+which, len(out.Bundle.Votes), len(out.Bundle.EquivocationVotes))
@@ -439,6 +454,29 @@ func (y *c06Sys) apply(op int) (bool, error) {
 		}
 	}
 	return true, nil
+}
+
+// checkThreshold checks a non-empty threshold event against the reference: type for the
+// step, value, coordinates, and the bundle as a quorum proof.
+func (y *c06Sys) checkThreshold(out thresholdEvent, which int, in rawVote) error {
+	env := y.env
+	want := nextThreshold
+	switch y.step {
+	case soft:
+		want = softThreshold
+	case cert:
+		want = certThreshold
+	}
+	if out.T != want {
+		return ve.Violationf("C06:threshold-type", "threshold event type %v for step %d, expected %v", out.T, y.step, want)
+	}
+	if out.Proposal != env.vals[y.step][which] {
+		return ve.Violationf("C06:threshold-value", "threshold signalled for %s, but the value reaching the threshold is %c", y.valName(out.Proposal), 'x'+which)
+	}
+	if out.Round != in.Round || out.Period != in.Period || out.Step != in.Step || out.Proto != env.version {
+		return ve.Violationf("C06:threshold-coords", "threshold event carries (%d,%d,%d,%s), votes are for (%d,%d,%d,%s)", out.Round, out.Period, out.Step, out.Proto, in.Round, in.Period, in.Step, env.version)
+	}
+	return y.checkBundle(out.Bundle, which)
 }
 
 func (y *c06Sys) valName(p proposalValue) string {
@@ -467,8 +505,12 @@ func (y *c06Sys) checkBundle(b unauthenticatedBundle, which int) error {
 			return ve.Violationf("C06:bundle-duplicate", "bundle contains voter %c twice", 'a'+i)
 		}
 		seen[i] = true
-		if y.ref.second[i] >= 0 || y.ref.first[i] != int8(which) {
-			return ve.Violationf("C06:bundle-foreign-vote", "bundle for %c contains a plain vote of %c, who did not (only) vote for it", 'x'+which, 'a'+i)
+		// a plain entry must be a vote the sender really cast for this value. (It may be the
+		// vote of a sender who equivocated afterwards: when the quorum completes in the middle
+		// of a bundleVerified event, later votes of the same event can still turn a packed
+		// voter into an equivocator; the proof stays valid.)
+		if y.ref.first[i] != int8(which) && y.ref.second[i] != int8(which) {
+			return ve.Violationf("C06:bundle-foreign-vote", "bundle for %c contains a plain vote of %c, who did not vote for it", 'x'+which, 'a'+i)
 		}
 		if a.Sig != tab[i][which].Sig || a.Cred != tab[i][which].Cred.UnauthenticatedCredential {
 			return ve.Violationf("C06:bundle-vote-content", "plain vote of %c in the bundle is not the accepted vote for %c", 'a'+i, 'x'+which)
@@ -493,7 +535,11 @@ func (y *c06Sys) checkBundle(b unauthenticatedBundle, which int) error {
 			return ve.Violationf("C06:bundle-eq-pair", "equivocation pair of %c is (%s,%s), the sender voted %c then %c", 'a'+i, y.valName(a.Proposals[0]), y.valName(a.Proposals[1]), 'x'+f, 'x'+s)
 		}
 		if a.Sigs[0] != tab[i][k0].Sig || a.Sigs[1] != tab[i][k1].Sig || a.Cred != tab[i][k0].Cred.UnauthenticatedCredential {
-			return ve.Violationf("C06:bundle-vote-content", "equivocation pair of %c does not carry the two accepted votes", 'a'+i)
+			real := env.verifyBundle(b)
+			if real == "" {
+				real = "accepts it"
+			}
+			return ve.Violationf("C06:bundle-vote-content", "equivocation pair of %c in the emitted bundle does not carry the two accepted votes (real unauthenticatedBundle.verify: %.160s)", 'a'+i, real)
 		}
 		weight += env.v.weights[i]
 	}
@@ -547,6 +593,15 @@ func TestVerif_C06(t *testing.T) {
 			}
 			if r.Violations() > 0 {
 				break
+			}
+		}
+		if r.Violations() == 0 {
+			ok, err := c06ExploreAggregator(r, env, steps, &cov)
+			if err != nil {
+				t.Fatalf("harness setup (aggregator family): %v", err)
+			}
+			if !ok {
+				cov.Exhaustive = false
 			}
 		}
 		env.memoMu.Lock()
